@@ -21,7 +21,12 @@ import (
 )
 
 // slot kinds
-var slotKinds = []string{"V", "U", "O", "F", "C0", "C1", "C2", "R"}
+var slotKinds = []string{"V", "U", "O", "F", "C0", "C1", "C2", "R", "E500"}
+
+// errorSlots: the dry run is answered with a status error that is neither Invalid nor Forbidden
+// (admission could not be consulted); not accepted is not accepted, but the pass may fail with an
+// error instead of reporting PreflightError.
+var errorSlots = map[string]string{"E500": "internal", "E503": "unavailable", "E429": "toomany"}
 
 // Owner types.
 var ownerTypes = []string{"ObjectSet", "ClusterObjectSet", "ObjectSetPhase", "ClusterObjectSetPhase"}
@@ -67,6 +72,10 @@ func slotObject(kind string, idx int, nsOwner bool) *unstructured.Unstructured {
 		o := world.Obj("Widget", defNS, name, nil)
 		o.SetAnnotations(map[string]string{kmodel.RejectAnnotation: "true"})
 		return o
+	case "E500", "E503", "E429":
+		o := world.Obj("Widget", defNS, name, nil)
+		o.SetAnnotations(map[string]string{kmodel.RejectAnnotation: errorSlots[kind]})
+		return o
 	}
 	panic("bad slot " + kind)
 }
@@ -76,13 +85,26 @@ func violates(kind string, nsOwner bool) bool {
 	switch kind {
 	case "V":
 		return false
-	case "U", "O", "R":
+	case "U", "O", "R", "E500", "E503", "E429":
 		return true
 	case "F", "C0", "C1", "C2":
 		// namespace rule: only binds namespaced owners
 		return nsOwner
 	}
 	return true
+}
+
+// anyErrorSlot: does the case contain an error-status slot anywhere (phase owners hold all objects
+// in one phase)?
+func anyErrorSlot(c Case) bool {
+	for _, p := range c.Phases {
+		for _, k := range p {
+			if errorSlots[k] != "" {
+				return true
+			}
+		}
+	}
+	return false
 }
 
 // resolvedKey is the store key a request for the slot object ends up at.
@@ -105,6 +127,9 @@ type built struct {
 	ownKey   kmodel.Key
 	phaseOf  map[kmodel.Key]int
 	badPhase int // first phase containing a violating object (-1 none)
+	// errAccepted: the first bad phase contains an object whose dry run answers with an error
+	// status; a failing pass is then as good as a reported PreflightError
+	errAccepted bool
 	objs     [][]*unstructured.Unstructured
 }
 
@@ -130,6 +155,9 @@ func build(c Case) *built {
 			b.phaseOf[resolvedKey(o, ownerNS)] = pi
 			if violates(k, nsOwner) && b.badPhase < 0 {
 				b.badPhase = pi
+			}
+			if errorSlots[k] != "" && b.badPhase == pi {
+				b.errAccepted = true
 			}
 		}
 		b.objs = append(b.objs, us)
@@ -176,6 +204,7 @@ func build(c Case) *built {
 		if b.badPhase > 0 {
 			b.badPhase = 0
 		}
+		b.errAccepted = anyErrorSlot(c)
 		w.MustCreate(&corev1alpha1.ObjectSetPhase{
 			ObjectMeta: metav1.ObjectMeta{Name: "own", Namespace: world.NS, Labels: map[string]string{corev1alpha1.ObjectSetPhaseClassLabel: world.PhaseClass}},
 			Spec:       corev1alpha1.ObjectSetPhaseSpec{Revision: 1, Objects: all}})
@@ -191,6 +220,7 @@ func build(c Case) *built {
 		if b.badPhase > 0 {
 			b.badPhase = 0
 		}
+		b.errAccepted = anyErrorSlot(c)
 		w.MustCreate(&corev1alpha1.ClusterObjectSetPhase{
 			ObjectMeta: metav1.ObjectMeta{Name: "own", Labels: map[string]string{corev1alpha1.ObjectSetPhaseClassLabel: world.PhaseClass}},
 			Spec:       corev1alpha1.ClusterObjectSetPhaseSpec{Revision: 1, Objects: all}})
@@ -262,7 +292,7 @@ func judgeRollout(c Case) ([]finding, string, []string) {
 		}
 		if b.badPhase >= 0 || dup {
 			outcome = "preflight-error"
-			if avail != "False" || reason != "PreflightError" {
+			if (avail != "False" || reason != "PreflightError") && !(b.errAccepted && pass.Err != nil) {
 				out = append(out, finding{"preflight-violation-not-reported", fmt.Sprintf("preflight violation expected (first bad phase %d, dup=%q) but persisted Available=%q/%q, pass error=%v", b.badPhase+1, c.Dup, avail, reason, pass.Err)})
 			}
 		} else if c.Dup != "" {
@@ -366,6 +396,10 @@ func enumerate(quick bool) []Case {
 				cases = append(cases, Case{Owner: owner, Phases: [][]string{{"V"}, {"V"}, {a}}, Teardown: td})
 			}
 		}
+		// other error statuses from the dry run, first / middle / last in a phase
+		for _, e := range []string{"E503", "E429"} {
+			cases = append(cases, Case{Owner: owner, Phases: [][]string{{e, "V"}, {"V"}}}, Case{Owner: owner, Phases: [][]string{{"V", e}, {"V"}}}, Case{Owner: owner, Phases: [][]string{{"V", "V"}, {e}}})
+		}
 		// duplicates
 		for _, d := range []string{"same-phase", "cross-phase", "via-defaulting", "other-version"} {
 			cases = append(cases, Case{Owner: owner, Phases: [][]string{{"V"}, {"V"}}, Dup: d})
@@ -388,7 +422,7 @@ func enumerate(quick bool) []Case {
 
 func run(o checks.Opts) *report.Report {
 	rep := report.New("C11", "enumeration")
-	rep.Rule = "phase contents from slot kinds {valid, unknown API, preset ownerReferences, foreign namespace, cluster-scoped kind without/with own/with other namespace, dry-run rejected} at every position of [2 objects][1 object] (+ single-object, three-phase and duplicate variants - same phase, across phases, via namespace defaulting, through another served API version; thorough adds [1][2][1]), owners {ObjectSet, ClusterObjectSet, same-cluster ObjectSetPhase, ClusterObjectSetPhase}, rollout (two passes) and teardown (objects pre-existing and controlled, owner deleted, up to 4 passes); distinct = (owner, outcome, which phase first fails preflight)"
+	rep.Rule = "phase contents from slot kinds {valid, unknown API, preset ownerReferences, foreign namespace, cluster-scoped kind without/with own/with other namespace, dry-run rejected (422), dry run answered with 500 (plus 503 / 429 variants)} at every position of [2 objects][1 object] (+ single-object, three-phase and duplicate variants - same phase, across phases, via namespace defaulting, through another served API version; thorough adds [1][2][1]), owners {ObjectSet, ClusterObjectSet, same-cluster ObjectSetPhase, ClusterObjectSetPhase}, rollout (two passes) and teardown (objects pre-existing and controlled, owner deleted, up to 4 passes); distinct = (owner, outcome, which phase first fails preflight)"
 	cases := enumerate(o.Quick())
 	rep.Bounds["cases"] = len(cases)
 	for i, c := range cases {
